@@ -85,6 +85,7 @@ package content
 //@   ensures forall o Pusher :: o != self ==> pushes(o) == old(pushes(o)) && lastPush(o) == old(lastPush(o))
 //@   ensures result == nil || errors.Is(result, errdef.ErrAlreadyExists) ==> present(self, K(expected))
 //@   ensures forall o any, k descriptor.Descriptor :: old(present(o, k)) ==> present(o, k)
+//@   ensures !isGlobalErr(result) || result == errdef.ErrAlreadyExists || result == errdef.ErrNotFound || result == errdef.ErrSizeExceedsLimit || result == errdef.ErrInvalidDigest
 //@   modifies ghost.pushes, ghost.lastPush, ghost.present, alloc
 //@ iface ReadOnlyStorage.Exists params ctx, target
 //@   ensures result0 && result1 == nil ==> present(self, K(target))
